@@ -717,7 +717,8 @@ def _filedata(w):
 # ---------------------------------------------------------------------------
 
 VARIANTS = ("close_creator", "close_receiver", "drop_both", "cb_close", "close_both", "drop_creator", "cb_close_hold",
-            "close_creator_hold", "cb_drop_hold", "cb_drop_errclose_hold", "cb_peercb_drop")
+            "close_creator_hold", "cb_drop_hold", "cb_drop_errclose_hold", "cb_peercb_drop",
+            "peercb_badclose_close", "peercb_badclose_drop", "hold_badclose_close")
 NESTS = ("bare", "list", "tuple", "dict")
 
 
@@ -799,6 +800,18 @@ def _cycles(ctx, aid, oi, table, op):
                     bad.append(("wrong-ack", k, variant, canon(ack)[:80]))
             if variant in ("close_creator", "cb_close", "close_both", "cb_close_hold", "close_creator_hold"):
                 c.close()
+            if "_badclose_" in variant:
+                # a close whose error object cannot be serialised fails (DumpError) and changes nothing: the
+                # conversation is then ended properly - by a second close with a text, or by dropping the object
+                try:
+                    c.close(object())
+                except Exception:  # noqa: BLE001
+                    pass
+                if variant.endswith("_close"):
+                    try:
+                        c.close("cycle ended with an error")
+                    except OSError:
+                        pass
             del c, item
         else:
             item = via.receive()
@@ -809,12 +822,12 @@ def _cycles(ctx, aid, oi, table, op):
                 via.send(("ack", k))
                 continue
             c.send(("#IT:%s#" % tok, "on-sub", k))
-            if variant == "cb_peercb_drop":
+            if variant == "cb_peercb_drop" or variant.startswith("peercb_"):
                 # both ends have a callback; this end is dropped first (last-message), the creator drops afterwards
                 c.setcallback(_ignore_item)
             if variant in ("close_receiver", "close_both"):
                 c.close()
-            if variant.endswith("_hold"):
+            if variant.endswith("_hold") or variant.startswith("hold_"):
                 # the creator's close / last-message arrives while this side still holds its end
                 held.append((c, variant))
             del c, item
